@@ -130,6 +130,7 @@ def run(ctx):
     ctx.guard(rule_c, ctx, ix)
     ctx.guard(rule_d, ctx, ix)
     ctx.guard(rule_e, ctx, ix)
+    ctx.guard(rule_f, ctx, ix)
 
 
 def rule_ab(ctx, ix):
@@ -295,3 +296,21 @@ def rule_e(ctx, ix):
     ctx.ob(R, f.construct + ' ambiguous', 'more than one match in a category yields None', amb,
            detail='find_component_id no longer returns None when a label is ambiguous within a category: the search falls through and '
                   'returns a component of a later category that happens to carry the label once (a non-unique match)', where=where(f, lp))
+
+
+def rule_f(ctx, ix):
+    """No method of the dataset classes mutates a structure while iterating it live."""
+    R = 'C17.f'
+    ctx.describe(R, 'dataset methods do not mutate an id-holding structure while iterating it', floor=12)
+    n = 0
+    for cq in ('glue.core.data.BaseData', 'glue.core.data.BaseCartesianData', 'glue.core.data.Data'):
+        c = ix.cls(cq)
+        for name, m in sorted(c.members.items()):
+            for f in (m.func, m.fget, m.fset):
+                if f is None or not any(isinstance(x, ast.For) for x in ast.walk(f.node)):
+                    continue
+                n += 1
+                if not common.check_iter_mutation(ctx, R, f):
+                    ctx.ob(R, f.construct, 'no loop mutates the collection it iterates', True)
+    if n < 15:
+        raise AnalysisError('C17.f: only %d looping dataset methods found' % n)
